@@ -576,7 +576,10 @@ def alter_code(
 ) -> str:
     """Alter python code.
 
-    This coordinates additions, removals and replacements in a safe way.
+    This coordinates additions, removals and replacements in a safe way. The modifications belong
+    together: they are all made, or, if one of them touches a line with an ignore comment, if a
+    replacement does not give valid code, or if the result is not valid code, none of them is made
+    and the source is returned as it is.
 
     Args:
         source (str): Python source code
@@ -594,6 +597,12 @@ def alter_code(
     # If priority specified, prioritize some actions over others. This goes on a line number
     # level, so col_offset will be overridden by this.
     original_source = source
+    if any(
+        core.has_ignore_comment(source, core.get_charnos(node, source))
+        for node in (*removals, *replacements)
+    ):
+        return original_source
+
     priorities = {
         modification_type: priority.index(modification_type)
         if modification_type in priority
@@ -641,12 +650,20 @@ def alter_code(
         elif action == "delete":
             source = remove_nodes(source, [value], root)
         elif action == "replace":
-            source = _replace_nodes(source, {value[0]: value[1]})
+            source = _do_rewrite(source, _Rewrite(value[0], value[1]))
+            if not core.is_valid_python(source):
+                return original_source
         else:
             raise ValueError(f"Invalid action: {action}")
 
+    if not core.is_valid_python(source):
+        return original_source
+
     source = _substitute_original_strings(original_source, source)
     source = _substitute_original_fstrings(original_source, source)
+
+    if not core.is_valid_python(source):
+        return original_source
 
     return source
 
